@@ -103,6 +103,39 @@ def bytes_decode(eng, st, args, kwargs, line):
     return val(st, VStr(None, DEC(b.t)))
 
 
+def _flatten_concat(t, st=None, depth=0):
+    """components of a concatenation; a component that the path condition DEFINES as a concatenation
+    (`x == a ++ b`, e.g. the result of encode_key at a call site) is expanded too"""
+    if z3.is_app(t) and t.decl().kind() == z3.Z3_OP_SEQ_CONCAT:
+        out = []
+        for c in t.children():
+            out.extend(_flatten_concat(c, st, depth))
+        return out
+    if st is not None and depth < 3 and z3.is_const(t):
+        for p in st.pc:
+            if z3.is_implies(p) and z3.is_true(z3.simplify(p.arg(0))):
+                p = p.arg(1)  # an ensures clause under a case guard that holds
+            for q in (p.children() if z3.is_and(p) else [p]):
+                if z3.is_eq(q) and q.arg(0).eq(t) and z3.is_app(q.arg(1)) and q.arg(1).decl().kind() == z3.Z3_OP_SEQ_CONCAT:
+                    return _flatten_concat(q.arg(1), st, depth + 1)
+    return [t]
+
+
+def named_sub(eng, st, content, pos, k):
+    """content[pos:pos+k]; when that is exactly one component of a concatenation the component itself is returned
+    (and the equality recorded), so that the sequence solver is not needed for the framing arguments"""
+    out = z3.SubString(content, pos, k)
+    parts = _flatten_concat(content, st)
+    if len(parts) > 1:
+        off = z3.IntVal(0)
+        for part in parts:
+            if eng.entails(st, z3.And(pos == off, k == z3.Length(part))):
+                st.assume(out == part)
+                return part
+            off = smt.som(off + z3.Length(part))
+    return out
+
+
 def binio_new(eng, st, content):
     oid = eng.new_oid(st, {"content": content, "pos": VInt(0)})
     return VObj(oid, "BinaryIO")
@@ -128,7 +161,7 @@ def bio_read(eng, st, args, kwargs, line):
     pos, content = f["pos"].t, f["content"].t
     rem = z3.Length(content) - pos
     k = smt.simp(z3.If(n < 0, rem, z3.If(n <= rem, n, rem)))
-    out = z3.SubString(content, pos, k)
+    out = named_sub(eng, st, content, pos, k)
     st.assume(z3.Length(out) == k)
     f["pos"] = VInt(smt.som(pos + k))
     return val(st, VBytes(out))
